@@ -6,15 +6,16 @@ func init() { register("C06", checkC06) }
 
 func checkC06(p *Program, tier string) *Result {
 	r := newResult("C06")
-	r.Explanation = "R-MIRROR: in the Reply method of the library's Response implementation the reply header is NewHeader(options) where each option is a plain 'store argument into field' setter and Version, Type, Flags and SessionID are loads of the stored request header; the sequence number is stored+1 computed at int width, or the constant 1 exactly under Status == AuthenStatusRestart; the one packet handed to the writer carries that header and body.MarshalBinary(); the stored header advances to the reply header; no reference handler bypasses Reply through Response.Write. R-LOOP(e): the response is allocated per request, seeded with the header of the packet just read, which the loop does not modify. R-FRAMING(writer): Header.Length := len(Body) before pad and marshal; Conn.Write only after a successful MarshalBinary. R-NARROW/R-VALIDATE-PASS(Header): a sequence number above 255 fails validation, so a request numbered 255 gets no packet. R-PADSHAPE(a): obfuscation is decided by the mirrored flag octet alone."
+	r.Explanation = "R-MIRROR: in the Reply method of the library's Response implementation the reply header is NewHeader(options) where each option is a plain 'store argument into field' setter and Version, Type, Flags and SessionID are loads of the stored request header; the sequence number is stored+1 computed at int width, or the constant 1 exactly under Status == AuthenStatusRestart; the one packet handed to the writer carries that header and body.MarshalBinary(); the stored header advances to the reply header; no reference handler bypasses Reply through Response.Write. R-LOOP(E): the response handed to the handler has its header set once, from the packet just read, before Handle, which the loop does not modify. R-FRAMING(writer): Header.Length := len(Body) before pad and marshal; Conn.Write only after a successful MarshalBinary. R-NARROW/R-VALIDATE-PASS(Header): a sequence number above 255 fails validation, so a request numbered 255 gets no packet. R-PADSHAPE(a): obfuscation is decided by the mirrored flag octet alone."
 	ruleMirror(p, r)
-	ruleLoop(p, r, "e")
+	ruleLoop(p, r, "E")
 	ruleRequestHeaderUntouched(p, r)
 	r.floor("R-LOOP", 2)
 	ruleFramingWriter(p, r)
+	r.discard("R-FRAMING", ":no-silent-drop") // whether a reply is written at all is C07's clause
 	validators := ruleValidatePass(p, r)
 	ruleNarrowEncoders(p, r, map[string]*ssa.Function{"Header": validators["Header"]})
-	rulePadShape(p, r)
+	rulePadShape(p, r, "aef")
 	r.Trusted = append(r.Trusted, "the statement itself is the oracle: field-by-field copy")
 	r.Assumptions = append(r.Assumptions, "third-party handlers that call Response.Write with a hand-made packet (public API, by design) are out of scope")
 	return r
